@@ -398,6 +398,17 @@ pub fn gen(prop: &str, rng: &mut Rng, quick: bool, st: &mut Stats) -> Option<Vec
                 c.push(format!("chk_startpos {} {p:x} - {}", if k % 2 == 0 { "sync" } else { "async" }, ops.join(";")));
                 st.bump("start_position_near_limits");
             }
+            // starting positions taken from the archive's own geometry (its length - 127, its offsets, ...)
+            for (k, n) in [0usize, 1, 5, 60].iter().enumerate() {
+                let mode = if k % 2 == 0 { "sync" } else { "async" };
+                let ops = small_logical_ops(rng, *n, st, if k % 2 == 0 { Some(Compression::None) } else { None });
+                c.push(format!("chk_startpos_rel {mode} {ops}"));
+                st.bump("start_positions_from_archive_geometry");
+            }
+            c.push(format!("chk_startpos_rel async {}", spill_ops(rng, 4300, Compression::None)));
+            // 5.2 million sparse tiles: the leaf size is doubled inside the write, at a non-zero start (about 1 GB)
+            c.insert(0, format!("chk_startpos_sparse {} 1000 4f5880 27", if quick { "sync" } else { "async" }));
+            st.bump("start_position_with_doubled_leaf_size");
             // archives with leaf directories at starting positions beyond 16 KiB
             for (k, p) in [16_384u64, 70_000].iter().enumerate() {
                 let mode = if k % 2 == 0 { "sync" } else { "async" };
@@ -882,6 +893,11 @@ pub fn run_chk(toks: &[&str]) -> Option<String> {
         ["chk_startpos", mode, p, pre, ops] => {
             let (p, pre) = (unhex_u64(p), unhex_bytes(pre));
             guard_chk(|| chk_startpos(mode, p, &pre, ops))
+        }
+        ["chk_startpos_rel", mode, ops] => guard_chk(|| chk_startpos_rel(mode, ops)),
+        ["chk_startpos_sparse", mode, p, n, g] => {
+            let (p, n, g) = (unhex_u64(p), unhex_u64(n), unhex_u64(g));
+            guard_chk(|| chk_startpos_sparse(mode, p, n, g))
         }
         ["chk_torn", mode, ops] => guard_chk(|| chk_torn(mode, ops)),
         ["chk_torn_giant", mode] => guard_chk(|| chk_torn_giant(mode)),
